@@ -30,7 +30,7 @@ def miri_run(features, scen_args, seeds, rate, mode="threads", timeout=3000):
     ensure_sut_link()
     # -Zmiri-ignore-leaks: a leak is not a violation of C16, and it also lets the program end
     # while detached worker threads (a legitimate thread pool) are still parked
-    flags = "-Zmiri-ignore-leaks -Zmiri-many-seeds=%d..%d -Zmiri-preemption-rate=%s" % (seeds[0], seeds[1], rate)
+    flags = "-Zmiri-ignore-leaks -Zmiri-num-cpus=8 -Zmiri-many-seeds=%d..%d -Zmiri-preemption-rate=%s" % (seeds[0], seeds[1], rate)
     env = cargo_env({"MIRIFLAGS": flags})
     env["CARGO_TARGET_DIR"] = target_dir("miri")
     cmd = ["cargo", "+nightly", "miri", "run", "--offline", "-q", "-p", "thrsim", "--bin", "thrsim", "--features", features,
@@ -137,6 +137,21 @@ def check_scenario(native, features, scen_args, seeds, rate):
         rcs, outs_seq = miri_run(features, scen_args, (0, 1), rate, mode="seq")
         ms = OUT_RE.search(outs_seq)
         if ms and ms.group(1) != expected:
+            # One caller thread and still not the native result.  If the library runs helper
+            # threads of its own, "sequential" is not schedule-free: take the sequential mode
+            # under several scheduler seeds; results that differ between seeds are a schedule
+            # effect inside the library (a violation), identical ones are a Miri-vs-native
+            # discrepancy of the harness.
+            rcm, outs_many = miri_run(features, scen_args, (seeds[0], seeds[0] + 6), rate, mode="seq")
+            seq_hashes = [o[0] for o in OUT_RE.findall(outs_many)]
+            if rcm == 0 and len(set(seq_hashes)) > 1:
+                s_seq = seeds[0] + next(i for i, h in enumerate(seq_hashes) if h != seq_hashes[0])
+                issues.append({"clause": "divergent-result", "miri_seed": s_found if s_found is not None else s_seq, "rate": rate,
+                               "detail": "with a single caller thread the result still depends on the scheduler seed (%d distinct results "
+                                         "over 6 seeds: the library runs threads of its own); native sequential result %s" % (
+                                             len(set(seq_hashes)), expected),
+                               "output": []})
+                return issues, stats
             raise HarnessError("sequential result under Miri differs from the native one; not a schedule effect: %s" % outs_seq[-600:])
         issues.append({"clause": "divergent-result", "miri_seed": s_found, "rate": rate,
                        "detail": "a concurrent execution gave result hash %s but the sequential execution gives %s" % (bad[0][0], expected),
@@ -329,6 +344,9 @@ def c16_check(tier, replay=None):
                 # interpreter (identity conversion): refcount traffic and aliasing across threads
                 # twenty threads: more than any small per-thread table has slots
                 ("sync", "crowd", 8, (0, 4), "0.1"),
+                # thousands of distinct elements projected / filtered / flattened: chunked or
+                # helper-thread evaluation inside the library must keep the order
+                ("sync", "bigproj", 9, (0, 3), "0.1"),
                 ("sync,specialized", "race", 4, (0, 3), "0.3"),
                 ("sync,specialized", "general", 6, (0, 4), "0.05")]
     else:
@@ -350,6 +368,8 @@ def c16_check(tier, replay=None):
         plan.append(("sync", "bigsort", 221, (0, 6), "0.5"))
         plan.append(("sync", "manytexts", 230, (0, 8), "0.1"))
         plan.append(("sync", "longrun", 240, (0, 4), "0.1"))
+        plan.append(("sync", "bigproj", 250, (0, 8), "0.1"))
+        plan.append(("sync", "bigproj", 251, (0, 8), "0.5"))
     execs = 0
     orders = set()
     overlap = 0
